@@ -95,7 +95,8 @@ def job(j):
     sib = [c for c in cols if re.search(r"_[ym]$", c) and c not in df.columns and c in gs.env(date)[1]]
     for c in rnd.sample(sib, min(2, len(sib))):
         other = c[:-1] + ("y" if c.endswith("m") else "m")
-        if other not in cols and other not in d2.columns:
+        used_somewhere = any(other in a for a in args.values())   # then supplying it is an override, not an unused column
+        if other not in cols and other not in d2.columns and not used_somewhere and other not in base.columns:
             d2[other] = 777.0
             info.setdefault("sibling_cols", []).append(other)
     k += 1
